@@ -6,7 +6,7 @@ single shapes (family 'shape' = one shape per model, also the replay address of 
 
   --prop=C03  value oracles (C vs reference, Python vs reference, C vs Python, NLA objective at the solution)
   --prop=C17  structure oracles (compiles warning-free, counts, info tables, helper functions, declared == defined)
-  --set=q|t   shape set (quick / thorough)     --wrap=w1|w2|w3|w4|w5
+  --set=q|t   shape set (quick / thorough)     --wrap=w1|w2|w3|w4|w5 (w5: operands a, d live in another component in mm / km)
 """
 import os, sys, json, re, math, shutil, tempfile
 V = os.path.dirname(os.path.dirname(os.path.abspath(__file__)))
@@ -59,6 +59,7 @@ def build_model(items, wrap):
     """items: list of (k, expr). Returns (doc, expectations) where expectations is a list of
     dict(k, v, var, kind in {'variable','rate'}, value, voi)."""
     var_xml, eqs, exp = [], [], []
+    src_vars, maps = [], []
     used_vals = set()
     for k, e in items:
         for v, val in enumerate(M.VALUATIONS):
@@ -69,7 +70,7 @@ def build_model(items, wrap):
             used_vals.add(v)
             mp = {n: '%s_%d' % (n, v) for n in ('a', 'b', 'd', 'p', 'r')}
             y = 'y_%d_%d' % (k, v)
-            if wrap == 'w1':
+            if wrap in ('w1', 'w5'):
                 var_xml.append('<variable name="%s" units="dimensionless"/>' % y)
                 eqs.append('<apply><eq/><ci>%s</ci>%s</apply>' % (y, M.mathml(subst(e, mp))))
                 exp.append(dict(k=k, v=v, var=y, kind='variable', value=ref, voi=0.0))
@@ -99,6 +100,14 @@ def build_model(items, wrap):
                 continue
             if wrap == 'w3' and n == 'a':
                 continue
+            if wrap == 'w5' and n in ('a', 'd'):
+                # the operand lives in component 'src' in scaled units and reaches 'c' through a connection:
+                # a in millimetres (value x 1000), d in kilometres (value / 1000); 'c' sees both in metres
+                unit, fac = ('mm', 1000.0) if n == 'a' else ('km', 0.001)
+                src_vars.append('<variable name="%s_%d" units="%s" interface="public" initial_value="%r"/>' % (n, v, unit, val[n] * fac))
+                var_xml.append('<variable name="%s_%d" units="metre" interface="public"/>' % (n, v))
+                maps.append('<map_variables variable_1="%s_%d" variable_2="%s_%d"/>' % (n, v, n, v))
+                continue
             if wrap == 'w4':
                 # constants defined by equations: an initialised variable inside an implicit equation would be an unknown with an initial guess
                 var_xml.append('<variable name="%s_%d" units="dimensionless"/>' % (n, v))
@@ -112,8 +121,13 @@ def build_model(items, wrap):
         var_xml.append('<variable name="yt" units="dimensionless"/>')
         eqs.append('<apply><eq/><ci>yt</ci><apply><plus/><ci>t</ci><ci>X_%d</ci></apply></apply>' % min(used_vals))
         exp.append(dict(k=items[0][0], v=min(used_vals), var='yt', kind='variable', value=0.75 + M.VALUATIONS[min(used_vals)]['a'], voi=0.75))
-    doc = '<?xml version="1.0" encoding="UTF-8"?>\n<model %s name="m">\n<component name="c">\n%s\n<math %s>\n%s\n</math>\n</component>\n</model>\n' % (
-        NS, '\n'.join(var_xml), MNS, '\n'.join(eqs))
+    units = src = conn = ''
+    if src_vars:
+        units = '<units name="mm"><unit units="metre" prefix="milli"/></units>\n<units name="km"><unit units="metre" prefix="kilo"/></units>\n'
+        src = '<component name="src">\n%s\n</component>\n' % '\n'.join(src_vars)
+        conn = '<connection component_1="c" component_2="src">%s</connection>\n' % ''.join(maps)
+    doc = '<?xml version="1.0" encoding="UTF-8"?>\n<model %s name="m">\n%s<component name="c">\n%s\n<math %s>\n%s\n</math>\n</component>\n%s%s</model>\n' % (
+        NS, units, '\n'.join(var_xml), MNS, '\n'.join(eqs), src, conn)
     return doc, exp
 
 
